@@ -779,6 +779,7 @@ def emit_return(run, s, kw, inputs_ok, extra_return):
             for c in ("nf", "nx", "nruns", "npt", "iter_this_run", "iters_total"):
                 tab[c] = [int(v) for v in df[c].tolist()] if c in df else []
             tab["slow_iter"] = [(-1 if (v is None or v != v) else int(v)) for v in df["slow_iter"].tolist()] if "slow_iter" in df else []
+            tab.update(rnf=int(s.nf), rnx=int(s.nx), rnruns=int(s.nruns))      # the result's own counters: the table's are bounded by THEM
             run.emit("Diag", **tab)
     if extra_return:
         d.update(extra_return(run, s, kw))
